@@ -75,6 +75,9 @@ def _types():
         "SeqWithQuality": (dt.SequenceEntryWithQuality, "name", "quality", [("k2", "ACGT", [1, 2, 3, 4]), ("k3", "GG", [0, 40]), ("k1", "A", [7])],
                            lambda k, j: [k, j, k + j][:1 + j % 3]),
         "Bed6File": (dt.Bed6, "start", "name", [("chr1", 2, 10, "n1", 5, "+"), ("chr22", 3, 1007, "name2", 10, "-"), ("c3", 1, 200, "x", 0, ".")], lambda k, j: "f%d_%d" % (k, j)),
+        # a text column whose ASCII codes sit in a 64-bit integer array, and one given as a 2-D character matrix (rows of equal length)
+        "SeqWide": (dt.SequenceEntry, "name", "sequence", [("k2", "ACGT"), ("k3", "GG"), ("k1", "ACGTACGTA")], lambda k, j: "ACGT"[j % 4] * (k + j)),
+        "SeqMatrix": (dt.SequenceEntry, "name", "sequence", [("k2", "ACG"), ("k3", "GGT"), ("k1", "TTA")], lambda k, j: "ACGT"[j % 4] * (k + j)),
         "ChromosomeSize": (dt.ChromosomeSize, "size", "name", [("chr1", 20), ("chr22", 30), ("c3", 10)], lambda k, j: "f%d_%d" % (k, j)),
         "LocationEntry": (dt.LocationEntry, "position", "chromosome", [("chr1", 2), ("chr22", 3), ("c3", 1)], lambda k, j: "f%d_%d" % (k, j)),
         "Nested": (Nested, "pos", "label", [(2, "l1", ((1, "a"), 5)), (3, "label2", ((2, "bb"), 6)), (1, "", ((3, "c"), 7))], lambda k, j: "f%d_%d" % (k, j)),
@@ -83,6 +86,17 @@ def _types():
                                          (1, "T", True, 0.25, 77, [9], "", "i3")], lambda k, j: "ACGT"[(k + j) % 4] * (1 + j % 3)),
     })
     return _TYPES
+
+
+def _special(tname, cls, rows):
+    import bionumpy as bnp
+    from bionumpy.encoded_array import EncodedArray, EncodedRaggedArray, BaseEncoding
+    names, seqs = [r[0] for r in rows], [r[1] for r in rows]
+    if tname == "SeqWide":
+        col = EncodedRaggedArray(EncodedArray(np.array([ord(c) for s_ in seqs for c in s_], dtype=np.int64), BaseEncoding), [len(s_) for s_ in seqs])
+    else:
+        col = bnp.as_encoded_array("".join(seqs)).reshape(len(seqs), len(seqs[0]))
+    return cls(names, col)
 
 
 def _from_file(rows):
@@ -131,6 +145,9 @@ def _project(t):
     cols = {}
     for nm in names:
         col = getattr(t, nm)
+        if type(col).__name__ == "EncodedArray" and len(col.shape) == 2:
+            cols[nm] = [col[i].to_string() for i in range(len(col))]          # a text column held as a character matrix: one row per entry
+            continue
         cols[nm] = _plain(col.tolist() if hasattr(col, "tolist") else list(col))
     n = len(t)
     return [tuple(_freeze(cols[nm][i]) for nm in names) for i in range(n)], names
@@ -195,7 +212,7 @@ def check_vector(v):
     structural = sum(1 for p in prog[1:] if p["op"] in ("index", "concat", "sort", "replace", "addfield", "addexisting"))
     for tname in dict.fromkeys(chosen):
         cls, sortc, repc, rows, fresh = types[tname]
-        made = outcome(lambda: _from_file(rows) if tname == "Bed6File" else cls.from_entry_tuples(rows))
+        made = outcome(lambda: _from_file(rows) if tname == "Bed6File" else (_special(tname, cls, rows) if tname in ("SeqWide", "SeqMatrix") else cls.from_entry_tuples(rows)))
         if made[0] == "err":
             bad.append({"what": "building the start table of type %s from its rows raised" % tname, "tags": {"type": tname, "op": "create", "ops": "create", "kind": "raises"},
                         "vector": v, "case": {"prog": prog, "type": tname}, "expected": str(rows)[:200], "observed": made[1]})
@@ -212,6 +229,8 @@ def check_vector(v):
                     pool.append(t[_sel(op["sel"], len(t))])
                 elif name == "concat":
                     pool.append(np.concatenate([t, pool[op["u"] - 1]]))
+                elif name in ("replace", "addexisting") and tname == "SeqMatrix":
+                    return "__not_applicable__"      # the fresh values have unequal lengths: they cannot be given as a character matrix
                 elif name == "replace":
                     vals = [fresh(op["k"], j + 1) for j in range(len(t))]
                     col = getattr(t, repc)
@@ -232,8 +251,12 @@ def check_vector(v):
                     u = type(t).from_entry_tuples([dataclasses.astuple(e) for e in t.tolist()])
                     return _project(u)[0]
                 elif name == "dict":
+                    if tname == "SeqMatrix":
+                        return "__not_applicable__"      # todict() hands a character matrix out as one joined string (EncodedArray.tolist is documented to give a string)
                     return _project(type(t).from_dict(t.todict()))[0]
                 elif name == "pandas":
+                    if tname == "SeqMatrix":
+                        return "__not_applicable__"      # a character-matrix column is not something pandas conversion is offered for
                     df = t.topandas()
                     res = _project(type(t).from_data_frame(df))[0]
                     # the frame is the caller's: writing into it (in place) leaves the table it came from unchanged (OperandsUnchanged)
@@ -328,7 +351,8 @@ def check_vector(v):
                             "vector": v, "case": case, "expected": "rows", "observed": o[1]})
                 break
             got, names = o[1]
-            lens = {len(_plain(getattr(tab, nm).tolist() if hasattr(getattr(tab, nm), "tolist") else list(getattr(tab, nm)))) for nm in names}
+            lens = {len(getattr(tab, nm)) if type(getattr(tab, nm)).__name__ == "EncodedArray" and len(getattr(tab, nm).shape) == 2 else
+                    len(_plain(getattr(tab, nm).tolist() if hasattr(getattr(tab, nm), "tolist") else list(getattr(tab, nm)))) for nm in names}
             want = _expected_rows(tname, exp, names)
             if got != want or len(lens) != 1:
                 which = "result" if k == len(pool) - 1 and prog[-1]["op"] in ("index", "concat", "replace", "addfield", "addexisting", "sort") else "operand"
@@ -414,6 +438,7 @@ def run(ctx):
     return ctx.finish(RULE, assumptions=[
         "replaced columns are given in the representation of the column they replace",
         "sort keys of distinct rows are distinct (the order among equal keys is not prescribed)",
+        "a text column held as a character matrix (type SeqMatrix) is not driven through the dict and pandas conversions",
         "each program runs on three of the eight table types (two by hash + the mixed dynamic type); nested-table columns are not driven",
     ])
 
